@@ -73,6 +73,12 @@ def gen(tier, seed):
         yield {"Member": [v, "b"]}
         yield {"MEMBER": ["b", v, "c,d"]}
         yield {"member": [v]}
+    # characters by class: Latin-1, BMP, the last BMP code point, the first / a middle / the last astral code point, combining marks, NBSP,
+    # LINE SEPARATOR, a private-use character - quoted (next to a comma) and unquoted, scalar and list member
+    for ch in ("\u00e9", "\u4f1a", "\uffff", "\U00010000", "\U0001F389", "\U00020000", "\U0010FFFF", "e\u0301", "\u00a0", "\u2028", "\ue000"):
+        for v in (ch, "a" + ch + "b", ch + ",x", "x;" + ch):
+            yield {"CN": v}
+            yield {"MEMBER": [v, "b"]}
     for _ in range(1500 if tier == "quick" else 20000):
         n = rnd.randint(1, 4 if tier != "quick" else 3)
         lst = ["".join(rnd.choice(ALPHA) for _ in range(rnd.randint(0, 12))) for _ in range(n)]
